@@ -38,6 +38,21 @@ CLAIMED = {
     "C15": ("property-based metamorphic testing across preemption bounds + independent preemption count by trace replay on R-SC",
             "Each generated program is run unbounded and with bounds n, n+1 and >= #operations: per-execution preemption count (independent replay), subset, monotonicity and large-bound equality relations are checked.",
             "The unbounded run is the yardstick for subset relations (findings F2b, F13 concern its completeness and are attributed by class).", "4/C15"),
+    "C10": ("property-based differential testing: leak reachability in the R-SC reference vs loom's leak reports",
+            "Bounded generated-program exploration over Arc handles, Track values, raw allocations and channel messages moved between threads, with release and leak paths whose choice depends on the schedule: the run must report a leak of a reachable kind iff some interleaving of the reference ends with a live object.",
+            "Trusts R-SC live-object accounting; F6p (Arc inspections vs clone/drop), F2b attributed by class.", "4/C10"),
+    "C11": ("property-based testing: trace validation against a reference count + L == SC + race verdicts for the payload destructor",
+            "Bounded generated-program exploration over Arc handles in 2-4 threads: every returned strong_count / get_mut / try_unwrap result must equal the reference count at that point of the op log, the payload is dropped exactly once, and every earlier handle drop happens-before the final one (checked through loom's race detector on a cell read by the destructor).",
+            "Trusts R-SC; completeness of inspections racing with clone/drop is the recorded finding F6p.", "4/C11"),
+    "C13": ("property-based round-trip / metamorphic testing with fresh child processes: interrupted + resumed run == uninterrupted run",
+            "Generated (program, checkpoint interval, stop point, stop kind) cases; every run in a fresh process; determinism, prefix property of the interrupted run, exact continuation from the last stored checkpoint incl. reproduction of a failing iteration.",
+            "The op log + results are the fingerprint of an iteration; runs above 700 iterations skipped.", "4/C13"),
+    "C16": ("property-based differential testing across processes: a model run alone vs after / between / concurrently with other model runs",
+            "Generated pairs of programs (incl. failing ones, thread-locals, lazy statics) in three composition modes; the full iteration sequence of P must equal that of P alone in a fresh process; per-iteration invariants on thread ids and lazy-static initialisation. The concurrent mode is a stress check.",
+            "OS schedule of concurrent models is not controlled; fingerprints are normalised for addresses and hash-map destructor order.", "4/C16"),
+    "C19": ("property-based testing: product / subset oracles for exploration controls, boundary-value generation for limits",
+            "Phase programs with one or two frozen phases must yield exactly the product of the explored phases; arbitrary legal placements must yield a subset with valid executions; max_branches / max_threads panic exactly when the need exceeds the limit; max_permutations / max_duration stop between iterations within the documented boundary.",
+            "Phases are independent by construction; max_duration only at its deterministic ends.", "4/C19"),
     "C12": ("property-based differential testing against std atomics (random op sequences + exhaustive 8-bit operand sub-domain)",
             "Generated single-threaded operation sequences on every loom atomic type are executed on the loom atomic inside loom::model and on the std atomic; all results and final contents must agree. Exhaustive for u8/i8 binary RMWs over all 256x256 operand pairs; sampled (boundary-biased) for wider types.",
             "std atomics are the reference; compare_exchange_weak is compared with the strong std operation (loom documents no spurious failure).", "4/C12"),
